@@ -10,6 +10,8 @@ Decided:
            nothing reachable from exists/find_offset/extract writes repositories or game_directory; SqPackIndex has no
            interior mutability and its lookups take &self  => answers cannot depend on earlier queries
   REPO     the token compared with a repository name is a single path component (not the rest of the path)
+  CATEGORY the 15 category directory names map to their Category variants and the variants carry the category ids
+           that index/dat file names are numbered with (compiler-evaluated discriminants against the reference table)
   PROV     extract reads at the offset / dat id / chunk of the matched entry; find_entry copies dat id and offset
            unswapped; both index and index2 candidates are enumerated for a chunk range covering 0..=9
 Not decided: CRC values (C12 decides the table and algorithm shape), behaviour across real chunk sets (execution).
@@ -23,6 +25,21 @@ from .c12 import LOWER, contains_call
 
 TECHNIQUE = "static analysis: must-pass-through (lower-casing) and string-shape tags on reconstructed expressions; operator-tree match of the entry-word decode; binrw layout/divisor rules per index type; who-may-write and freeze facts for the memo; derives-from obligations on the lookup chain"
 TRUSTED = ["rustc nightly MIR, layout and freeze facts", "pv.sym expression reconstruction", "pv/wire.py binrw model", "spec/layouts.txt (Lumina SqPack structs)"]
+
+# top-level directory of a game path -> (Category variant, id in the archive file names); SqPack category list of the game
+CATEGORIES = {
+    "common": ("Common", 0x00), "bgcommon": ("BackgroundCommon", 0x01), "bg": ("Background", 0x02), "cut": ("Cutscene", 0x03),
+    "chara": ("Character", 0x04), "shader": ("Shader", 0x05), "ui": ("UI", 0x06), "sound": ("Sound", 0x07), "vfx": ("VFX", 0x08),
+    "ui_script": ("UIScript", 0x09), "exd": ("EXD", 0x0A), "game_script": ("GameScript", 0x0B), "music": ("Music", 0x0C),
+    "sqpack_test": ("SqPackTest", 0x12), "debug": ("Debug", 0x13),
+}
+
+
+def strip_refs(e):
+    while isinstance(e, tuple) and e[0] in ("ref", "deref") and isinstance(e[1], tuple):
+        e = e[1]
+    return e
+
 
 TYPES = ["sqpack::SqPackHeader", "sqpack::index::SqPackIndexHeader", "sqpack::index::SegementDescriptor", "sqpack::index::FileEntry", "sqpack::index::FolderEntry", "sqpack::index::DataEntry"]
 
@@ -79,6 +96,7 @@ def run(ctx):
     ctx.decided("SqPack/index header and entry layouts; table counts per index type (W1/W3)")
     ctx.decided("index cache is a pure memo; lookups cannot depend on query history (MEMO)")
     ctx.decided("repository token is one path component (REPO)")
+    ctx.decided("category directory names and category ids equal the reference table (CATEGORY)")
     ctx.decided("lookup chain provenance: offset, dat id, chunk, both index kinds per chunk (PROV)")
     ctx.not_decided("CRC values; which chunk files exist at run time; behaviour of synonym entries")
 
@@ -386,6 +404,49 @@ def run(ctx):
                     fallback = True
         ctx.ob("REPO", "category-is-first-component", cat_ok, "the category is looked up from the first path component", pb.file, pb.line)
         ctx.ob("REPO", "base-fallback", fallback, "paths without a repository component fall back to repositories[0] (the base game after sorting)", pb.file, pb.line)
+
+    # ---- CATEGORY: directory name -> variant -> id used in the file names
+    adt = prog.adts.get("repository::Category")
+    if not adt:
+        ctx.fail_closed("CATEGORY", "enum repository::Category not found")
+    else:
+        got = {v["name"]: int(v["discr"]) for v in adt["variants"]}
+        for _dir, (name, val) in sorted(CATEGORIES.items()):
+            ctx.ob("CATEGORY", f"id|{name}", got.get(name) == val, f"Category::{name} = {got.get(name)}; the game numbers this category's files {val:#04x}", "src/repository.rs", None, sample=(name == "SqPackTest"))
+        ctx.floor("CATEGORY", "category ids", len([n for n in got if n in {v[0] for v in CATEGORIES.values()}]), 15)
+    sb = prog.body("repository::string_to_category")
+    if not sb:
+        ctx.fail_closed("CATEGORY", "repository::string_to_category not found")
+    else:
+        table = {}
+        try:
+            paths = Explorer(sb, max_paths=400).explore()
+        except Exception as e:  # noqa: BLE001
+            paths = []
+            ctx.fail_closed("CATEGORY", f"string_to_category is not a loop-free decision table: {e}")
+        for p in paths:
+            hits = []
+            for cond in p.conds:
+                e, (op, val) = cond[0], cond[1]
+                if isinstance(e, tuple) and e[0] == "call" and e[1].split("::")[-1] in ("eq", "ne") and "PartialEq" in e[1]:
+                    lits = [a[1] for a in e[2] if isinstance(a, tuple) and a[0] == "ks"]
+                    whole = any(isinstance(a, tuple) and strip_refs(a) == ("p", 1) for a in e[2])
+                    v0 = val[0] if isinstance(val, tuple) and val else val
+                    truth = (op == "eq" and v0 != 0) or (op == "ne" and v0 == 0)
+                    if e[1].split("::")[-1] == "ne":
+                        truth = not truth
+                    if truth and lits and whole:
+                        hits.append(lits[0])
+            leaf = p.env.local(0)
+            var = None
+            if isinstance(leaf, tuple) and leaf[0] == "agg" and leaf[2].endswith("Option::Some") and leaf[3] and isinstance(leaf[3][0], tuple) and leaf[3][0][0] == "agg":
+                var = leaf[3][0][2].split("::")[-1]
+            if len(hits) == 1 and var:
+                table.setdefault(hits[0], set()).add(var)
+        for dir_, (name, _val) in sorted(CATEGORIES.items()):
+            ctx.ob("CATEGORY", f"name|{dir_}", table.get(dir_) == {name}, f"string_to_category({dir_!r}) = {sorted(table.get(dir_, []))}; must be Category::{name}", sb.file, sb.line, sample=(dir_ == "chara"))
+        extra = sorted(set(table) - set(CATEGORIES))
+        ctx.ob("CATEGORY", "no-unknown-directory", not extra, f"directory names outside the game's list: {extra}", sb.file, sb.line, trivial=True)
 
     # ---- PROV
     eb = prog.body("gamedata::GameData::extract")
